@@ -39,7 +39,7 @@ def confirm(d: Path):
         env = {"PYTHONPATH": f"{wt}/src"}
         pid = json.loads((d / "meta.json").read_text())["property"]
         demo = (d / "demo.py").read_text()
-        for pat in (f"/tmp/seedB_{pid}", f"/tmp/seedC_{pid}", f"/tmp/seedD_{pid}", f"/tmp/seedE_{pid}", f"/tmp/seedF_{pid}", f"/tmp/seedG_{pid}", f"/tmp/seedH_{pid}", f"/tmp/seedI_{pid}", f"/tmp/seedJ_{pid}", f"/tmp/seed_{pid}", f"/tmp/seed_{d.name}"):
+        for pat in (f"/tmp/seedB_{pid}", f"/tmp/seedC_{pid}", f"/tmp/seedD_{pid}", f"/tmp/seedE_{pid}", f"/tmp/seedF_{pid}", f"/tmp/seedG_{pid}", f"/tmp/seedH_{pid}", f"/tmp/seedI_{pid}", f"/tmp/seedJ_{pid}", f"/tmp/seedK_{pid}", f"/tmp/seed_{pid}", f"/tmp/seed_{d.name}"):
             demo = demo.replace(pat, wt)
         Path(wt, "demo.py").write_text(demo)
         rc0, out0 = sh([PY, "demo.py"], cwd=wt, env=env, timeout=900)
